@@ -114,6 +114,9 @@ func (l *listener) listenLoop() {
 				conn := newStreamWrapper(stream, stream.LocalAddr(), stream.RemoteAddr(), wg)
 				select {
 				case <-l.closeCh:
+					// nobody will accept this connection any more: give up its reference,
+					// otherwise the session never ends
+					_ = conn.Close()
 					return
 				case l.backlog <- conn:
 				}
